@@ -305,13 +305,16 @@ class C07(Prop):
                 t = self._next_tag()
                 probe.append(rb.encode(gen.broadcast_desc(r, gen.MODELS[(i + n) % 9], n, t)))
             loop = asyncio.get_running_loop()
+            verdict = "ok"
             try:
-                seen = await asyncio.wait_for(loop.run_in_executor(None, udp.second_loop_probe, lambda: bridge, ports[0], probe, log, self.rig.sender), 30)
+                seen, verdict = await loop.run_in_executor(None, udp.second_loop_probe, lambda: bridge, ports[0], probe, log, self.rig.sender)
             except Exception as exc:
                 seen = f"{type(exc).__name__}: {exc}"
             acc.ev(len(probe))
             acc.count("broadcasts_to_the_same_bridge_in_a_second_event_loop", len(probe))
-            if seen != len(probe):
+            if seen != len(probe) and verdict == "unknown":
+                acc.inconclusive_because("second-event-loop probe: datagrams dropped or still queued by the kernel")
+            elif seen != len(probe):
                 acc.violation("deliveries-stopped:second-event-loop", f"the bridge object of this history, started again in a new event loop of the same process, "
                               f"delivered {seen} of {len(probe)} valid broadcasts", {"ports": ports, "delivered": str(seen)})
         acc.ev(n_dg)
